@@ -76,6 +76,9 @@ func (a *aliasReader) ReadHashes(ix []int64) ([]tlog.Hash, error) {
 	return out, nil
 }
 
+// Aliasing is shared with C03 (the provers are part of both properties).
+func Aliasing(r *fw.Run) { aliasing(r) }
+
 func aliasing(r *fw.Run) {
 	l := fw.NewLocal()
 	defer r.Merge(l)
